@@ -6,7 +6,7 @@ from concurrent.futures import ThreadPoolExecutor
 VERIF = os.path.dirname(os.path.abspath(__file__))
 REPO = os.environ.get('GLMX_REPO', '/repo')
 BUILD = os.path.join(VERIF, 'build')
-EVID = os.path.join(VERIF, 'evidence')
+EVID = os.environ.get('GLMX_EVIDENCE_DIR') or os.path.join(VERIF, 'evidence')   # seed experiments and development overrides write to a scratch directory: evidence/ only ever holds runs of the registered check on /repo as it is
 REPLAY = os.path.join(VERIF, 'replay')
 
 BASE_FLAGS = ['-std=c++17', '-O2', '-ffp-contract=off', '-fno-fast-math', '-pthread', '-w', '-mno-mmx']   # -mno-mmx: g++ 12 otherwise emits movq %mm0 / movq2dq without emms in vectorised code, which poisons x87 long double arithmetic of the oracles
